@@ -136,7 +136,7 @@ func genC05(r *Rand, tier string, i int) *h.Scenario {
 		}
 	} else if r.Bool(0.1) {
 		// the output dies: the container shuts down, and still knows its bars
-		sc.Faults = []h.Fault{{Site: []int{h.FaultOutWrite, h.FaultOutShort}[r.Intn(2)], K: r.Range(1, 6)}}
+		sc.Faults = []h.Fault{{Site: []int{h.FaultOutWrite, h.FaultOutShort}[r.Intn(2)], K: r.Range(1, 6), Err: []int{0, 0, 1, 2, 3, 4, 5, 6}[r.Intn(8)]}}
 		if sc.Cont.Notifier == 0 {
 			sc.Cont.Notifier = 1
 		}
@@ -337,7 +337,7 @@ func genC03(r *Rand, tier string, i int) *h.Scenario {
 	p.PTerminal = 0.35
 	p.PTightTerm = 0.3 // fewer lines than rows: clipped bars come into view when others leave
 	p.PWrap = 0.6
-	p.PQueueAfter = 0
+	p.PQueueAfter = 0.1 // successors created before their predecessor finishes
 	p.PLate = 0.3
 	p.PJoin = 0.05
 	if tier == "thorough" {
@@ -670,6 +670,12 @@ func genC13(r *Rand, tier string, i int) *h.Scenario {
 	p.PTerminal = 0.3
 	p.MaxClients = 4
 	sc := GenBase(r, &p)
+	// somebody else stops the container while main is about to wait: text accepted before that must
+	// still be in the output when main's Wait returns
+	if len(sc.Clients) > 0 && !sc.Cont.UserWG && r.Bool(0.1) {
+		who := r.Intn(len(sc.Clients))
+		sc.Clients[who] = append(sc.Clients[who], h.Op{K: []int{h.OpShutdown, h.OpCancel}[r.Intn(2)]})
+	}
 	// writes racing with the final render: main writes right before Wait
 	if r.Bool(0.4) {
 		sc.Main = append(sc.Main, h.Op{K: h.OpWrite, S: UserLine(-1, 900+i%50, "racing-with-wait")})
@@ -691,6 +697,14 @@ func judgeC13(hi *Hist) []*Violation {
 		}
 	}
 	frames := ParseFrames(hi)
+	// "no later than the last frame written before Wait returns"
+	if hi.WaitOut >= 0 {
+		for k, f := range frames {
+			if f.W.At > hi.WaitOut && len(f.User) > 0 {
+				add("emitted-after-wait", "frame %d, written after Wait had returned, carries text written through the container: %q", k, f.User[0])
+			}
+		}
+	}
 	// the output as one stream of user lines with their positions
 	type pos struct{ frame, idx int }
 	where := map[string][]pos{}
